@@ -519,7 +519,7 @@ func (w *world) view(q [][][]byte) string {
 			}
 		}
 		var snaps, cfg, subs []string
-		for d := 0; d < 3; d++ {
+		for _, d := range []int{0, 1, 2, 9, 10, 11} {
 			snaps = append(snaps, fmt.Sprintf("%d:%s", d, item("snapshot", d)))
 		}
 		if it, ok := w.call("listConfig"); ok {
